@@ -1323,6 +1323,74 @@ def check_pmt_flip(args):
                 return "flipping bit %d of byte %d (section offset %d) of a PMT packet goes unreported (unpack returned %r)" % (bit, i, i - lo, r)
     return None
 
+def forge_pmt_slen(k=3, st2=0x1B, pid2=0x101):
+    """A well-formed PMT packet and the position of ONE bit of its section_length whose flip goes unreported.
+    Two streams; the second is d = 2**k bytes long (5 + ES descriptors), bit k of section_length L is set, so the flip
+    gives L' = L - d: the section then ends after the first stream, and the four bytes the decoder reads as the CRC are the
+    first four bytes of the second stream (type, 0xE0|PID, 0xF0|ES_info_length high nibble).  The last four ES-descriptor
+    bytes of the FIRST stream are solved (CRC-32 is affine, and a bijection on the last four message bytes) so that the CRC
+    of "header with L' || first stream" equals them.  Returns (packet bytes, byte index, bit)."""
+    import AcraNetwork.MPEG.PMT as pmt
+    d = 1 << k
+    assert d >= 8
+    m = next(m for m in range(4, 200) if ((13 + 5 + m + d) >> k) & 1)
+    def mk(es1):
+        p = pmt.MPEGPacketPMT()
+        p.adaption_ctrl = 1; p.pid = 0x100; p.tableid = 2; p.program_number = 1; p.pcr_pid = 0x101
+        s1 = pmt.PMTStream(); s1.streamtype = 0x1B; s1.elementary_pid = 0x101; s1.elementary_stream_descriptors = bytes(es1)
+        s2 = pmt.PMTStream(); s2.streamtype = st2; s2.elementary_pid = pid2
+        s2.elementary_stream_descriptors = bytes((0xAA + i) & 0xFF for i in range(d - 5))
+        p.streams = [s1, s2]
+        return p
+    b = mk(bytes(m)).pack()
+    sec = 5
+    L = ((b[sec + 1] & 0xF) << 8) | b[sec + 2]
+    assert L == 13 + 5 + m + d and (L >> k) & 1
+    hd = bytearray(b[sec:sec + 12])
+    if k < 8:
+        hd[2] ^= 1 << k
+    else:
+        hd[1] ^= 1 << (k - 8)
+    s1 = b[sec + 12: sec + 12 + 5 + m]
+    target = int.from_bytes(b[sec + 12 + 5 + m: sec + 12 + 5 + m + 4], "big")
+    prefix = bytes(hd) + s1[:-4]
+    base = ref_crc32_mpeg2(prefix + bytes(4))
+    basis = {}
+    for i in range(32):
+        c, mask = ref_crc32_mpeg2(prefix + (1 << i).to_bytes(4, "big")) ^ base, 1 << i
+        while c:
+            hb = c.bit_length() - 1
+            if hb in basis:
+                c ^= basis[hb][0]; mask ^= basis[hb][1]
+            else:
+                basis[hb] = (c, mask); break
+    w, x = target ^ base, 0
+    while w:
+        hb = w.bit_length() - 1
+        w ^= basis[hb][0]; x ^= basis[hb][1]
+    es1 = bytes(m - 4) + x.to_bytes(4, "big")
+    good = mk(es1).pack()
+    return good, (sec + 2 if k < 8 else sec + 1), (k if k < 8 else k - 8)
+
+def check_pmt_slen_forged(args):
+    """NOT run by default (see notes/mpegeq.md): a constructed well-formed PMT packet on which ONE flipped bit of
+    section_length goes unreported — MPEGPacketPMT.unpack returns True.  Lean: C07.pmtSlenForged (k = 3)."""
+    import AcraNetwork.MPEG.PMT as pmt
+    good, i, bit = forge_pmt_slen(int(args.get("k", 3)))
+    q = pmt.MPEGPacketPMT()
+    if q.unpack(good) is not True or len(good) != 188:
+        return None
+    bad = bytearray(good); bad[i] ^= 1 << bit
+    q = pmt.MPEGPacketPMT()
+    try:
+        r = q.unpack(bytes(bad))
+    except Exception:
+        return None
+    if r is not False:
+        return ("flipping bit %d of byte %d (section_length %#x -> %#x) of the PMT packet %s goes unreported: unpack returned %r "
+                "with %d stream(s)" % (bit, i, good[i], bad[i], good[:5 + 3 + good[7] + 1].hex(), r, len(q.streams)))
+    return None
+
 def check_stanag_sum(args):
     """the checksum bytes inside pack() are the MISB 0601 16-bit sum of the protected bytes actually emitted"""
     import AcraNetwork.MPEG.PES as pes
@@ -1377,7 +1445,8 @@ def _safe(fn, args):
         return "%s: the emitted bytes cannot be analysed (%r)" % (fn.__name__, e)
 
 ORACLES.update({"mpeg_pmt_crc": check_pmt_crc, "mpeg_pmt_crc_redecode": check_pmt_crc_redecode, "mpeg_crc_fn": check_crc_fn, "mpeg_pmt_flip": check_pmt_flip,
-                "mpeg_stanag_sum": check_stanag_sum, "mpeg_sum_fn": check_sum_fn, "mpeg_stanag_flip": check_stanag_flip})
+                "mpeg_stanag_sum": check_stanag_sum, "mpeg_sum_fn": check_sum_fn, "mpeg_stanag_flip": check_stanag_flip,
+                "mpeg_pmt_slen_forged": check_pmt_slen_forged})
 
 def _first(fails, name, cls, check, fn, argss, ctx):
     k = 0
